@@ -45,6 +45,11 @@ struct Canaries {
 }
 
 impl Canaries {
+    /// `worker bare`: no canary calls at all, so that a delivery is the very first call the process
+    /// makes (used to repeat deliveries without any history).
+    fn none() -> Canaries {
+        Canaries { inputs: Vec::new(), baseline: Vec::new(), stable: Vec::new() }
+    }
     fn record() -> Canaries {
         let inputs: Vec<Vec<u8>> = ENTRIES.iter().map(|e| crate::seeds::embedded(e.name).into_iter().next().unwrap_or_default()).collect();
         let baseline: Vec<String> = ENTRIES.iter().zip(&inputs).map(|(e, i)| call(e, i)).collect();
@@ -54,6 +59,9 @@ impl Canaries {
         Canaries { inputs, baseline, stable }
     }
     fn battery(&self) -> String {
+        if self.inputs.is_empty() {
+            return "canary_skip".to_string();
+        }
         let mut drift = Vec::new();
         for (i, e) in ENTRIES.iter().enumerate() {
             if !self.stable[i] {
@@ -73,12 +81,14 @@ impl Canaries {
 
 fn process(rx: mpsc::Receiver<(u32, Vec<u8>)>) {
     let out = std::io::stdout();
-    let canaries = Canaries::record();
-    let not_ok = canaries.baseline.iter().filter(|b| !b.starts_with("ok:")).count();
+    let bare = std::env::args().nth(2).as_deref() == Some("bare");
+    let canaries = if bare { Canaries::none() } else { Canaries::record() };
+    let not_ok_names: Vec<&str> = canaries.baseline.iter().zip(ENTRIES.iter()).filter(|(b, _)| !b.starts_with("ok:")).map(|(_, e)| e.name).collect();
+    let not_ok = not_ok_names.len();
     let unstable = canaries.stable.iter().filter(|s| !**s).count();
     {
         let mut o = out.lock();
-        let _ = writeln!(o, "H\t{}\t{}\t{}", ENTRIES.len(), not_ok, unstable);
+        let _ = writeln!(o, "H\t{}\t{}\t{}\t{}", ENTRIES.len(), not_ok, unstable, not_ok_names.join(","));
         let _ = o.flush();
     }
     let mut canaries = canaries;
